@@ -58,7 +58,12 @@ class SimRec:
         self.probes[name] = self.probes.get(name, 0) + int(v)
 
     def fields(self, extra_digest=None):
-        return dict(choices=self.choices, digest=digest(self.digests, self.results, extra_digest),
+        # `digest` identifies the execution (which tasks ran, in which order, where, pre-empted
+        # how often); `result_digest` the values that came out. A replay must reproduce the
+        # former exactly; the latter may legitimately differ for a defect whose output is
+        # nondeterministic (uninitialised memory), which is still a violation of the same clause.
+        return dict(choices=self.choices, digest=digest(self.digests, extra_digest),
+                    result_digest=digest(self.results),
                     faults={k: v for k, v in self.faults.items() if v},
                     probes=self.probes, tasks=self.tasks,
                     nontrivial=self.nontrivial > 0)
